@@ -51,7 +51,7 @@ ASSUMPTIONS = [
     "`direction` attribute: only axis and sign are judged (off-axis components zero up to 1e-12 of the axis component: rounding noise of a computed rotation), not its length",
     "admissible direction spellings: strings consisting of one axis letter (either case) and an optional sign before "
     "or after it, optionally padded by blanks (bare letter = positive); vectors (list/tuple/ndarray, int or float, "
-    "any positive length) with dim or 3 components",
+    "any positive length) with dim or 3 components, and 2 components on 3D domains for in-plane directions",
     "one-step tolerance (derived): |dy| <= 4*[(s+b)*((p+4+ns)/Q + |ln keep|*(4p/Q+1)/Q + 4)*u + b*((745/Q)*(4p/Q+2)+10)*u"
     " + 8u*(|x|+|s|+sqrt(eps))], u=2^-52: 1 ulp for y+shift amplified by p, <=4 ulp per pow, ns-term sum, 4p/Q ulp "
     "in Q (two logs, a division, a sum) acting through |ln keep|/Q on the Q-th root, 8 roundings of magnitude "
@@ -220,7 +220,8 @@ def spellings(dim, ax, sg, rng):
 
     c = float(rng.uniform(0.3, 7.0))
     k = int(rng.integers(2, 6))
-    for n in ([3] if dim == 3 else [2, 3]):
+    # (a 2-component vector on a 3D domain is padded with a zero z component by the module: admissible for in-plane print directions)
+    for n in (([3, 2] if ax < 2 else [3]) if dim == 3 else [2, 3]):
         out += [("vector", f"float-list-{n}", vec(n, float(sg))),
                 ("vector", f"int-list-{n}", vec(n, int(sg))),
                 ("vector", f"scaled-float-list-{n}", vec(n, c * sg)),
@@ -231,7 +232,7 @@ def spellings(dim, ax, sg, rng):
         # noise of 1e-16 in the off-axis entries
         rv = np.array(vec(n, float(sg)), dtype=float)
         for o in range(n):
-            if o != ax and o < dim:      # (the library asserts an exactly zero z component on 2D domains)
+            if o != ax and o < dim and o < n:      # (the library asserts an exactly zero z component on 2D domains)
                 rv[o] = float(rng.choice([6.123233995736766e-17, -1.8369701987210297e-16, 1.2246467991473532e-16]))
         out.append(("vector", f"rotated-unit-vector-{n}", rv))
     return out
